@@ -320,9 +320,13 @@ def gatewayCase (hdr : String) (lines : List String) : List String :=
       mon "C08" ((vs0809.filter fun v => v.sig.startsWith "C08:").map fun v => { v with sig := (v.sig.drop 4).toString }) ++
       mon "C09" ((vs0809.filter fun v => v.sig.startsWith "C09:").map fun v => { v with sig := (v.sig.drop 4).toString }) ++
       mon "C10" (Spec.c10 tr tEnd) ++ mon "C11" (Spec.c11 tr) ++ mon "C13" (Spec.c13 c.cfg tr tEnd) ++
-      mon "C14" (Spec.c14 tr) ++ mon "C23" (Spec.c23 tr) ++ mon "C24" (Spec.c24 tr)
+      mon "C14" (Spec.c14 tr) ++ mon "C23" (Spec.c23 tr) ++ mon "C24" (Spec.c24 tr) ++
+      mon "C12" (Spec.c12 tr tEnd) ++ mon "C34" (Spec.c34 c.cfg tr tEnd) ++
+      -- a session that does not end (C13's rules) is a session that is not reaped
+      mon "C34" ((Spec.c13 c.cfg tr tEnd).map fun v => { v with sig := "session-not-reaped/" ++ v.sig }) ++
+      mon "C34" ((Spec.c10 tr tEnd).map fun v => { v with sig := "session-not-reaped/" ++ v.sig })
     let leaks := implOuts.filterMap fun (t, s) =>
-      if s.startsWith "leak" then some s!"MON C13 goroutine-leak case={caseId} t={t} {s.take 300}"
+      if s.startsWith "leak" then some s!"MON C13 goroutine-leak case={caseId} t={t} {s.take 300}\nMON C34 session-not-reaped/goroutine-leak case={caseId} t={t} {s.take 300}"
       else if s.startsWith "panic" then some s!"MON C25 panic case={caseId} t={t} {s.take 300}"
       else none
     (basic.filter fun l => !l.startsWith "LEAKPANIC") ++ projDiffs ++ ms ++ leaks
